@@ -3240,7 +3240,7 @@ def reset(
 
             # Pass committer explicitly: Repo._write_reflog would otherwise
             # resolve it via get_user_identity(), which reads os.environ.
-            r.refs.set_if_equals(
+            if not r.refs.set_if_equals(
                 HEADREF,
                 old_head,
                 target_commit.id,
@@ -3248,7 +3248,8 @@ def reset(
                     _config_stack(r, env=env), kind="COMMITTER", env=env
                 ),
                 message=reflog_message,
-            )
+            ):
+                raise Error("HEAD changed during reset")
 
         if mode == "soft":
             # Soft reset: only update HEAD, leave index and working tree unchanged
